@@ -4,7 +4,8 @@ Output texts = all sequences of up to 2 atoms over {x blank $1 ${x} $A backslash
 trailing-newline variants, produced by the helper vh-emit (which records every run), substituted with $(...) and
 backquotes, as whole word / at word start / middle / end, unquoted and double-quoted, as the right-hand side of an
 assignment and as here-string operand; inner commands: external, pipeline, builtin, failing, not found, syntactically
-invalid; two substitutions in one word and in one line. Executed by the real binary. Oracle: one argument = head +
+invalid, function; two substitutions in one word and in one line; the substituted word next to other words of every
+quoting kind (8 before x 6 after). Executed by the real binary. Oracle: one argument = head +
 output without trailing newlines + tail (byte-exact; unquoted may be split at blanks), helper ran exactly once per
 substitution, the shell's variables are visible inside, a failing/invalid inner command gives a diagnostic and an
 empty replacement and never hangs."""
@@ -80,6 +81,41 @@ def build_cases(tier):
     return cases
 
 
+BEFORE = [('none', '', []), ('plain', 'b1 ', ['b1']), ('sq', "'s q' ", ['s q']), ('dq', '"d q" ', ['d q']), ('escaped-dollar', '\\$e ', ['$e']),
+          ('variable', '$A ', ['VALA']), ('other-substitution', '$(vh-emit o) ', ['oo']), ('other-backquote', '`vh-emit o` ', ['oo'])]
+AFTER = [('none', '', []), ('plain', ' a1', ['a1']), ('sq', " 's q'", ['s q']), ('dq', ' "d q"', ['d q']), ('variable', ' $A', ['VALA']),
+         ('other-backquote', ' `vh-emit o`', ['oo'])]
+
+
+def neighbour_cases():
+    """the substituted word next to other words of every quoting kind: the other words keep their value and position"""
+    cases = []
+    k = 0
+    for (bn, btxt, bargs) in BEFORE:
+        for (an, atxt, aargs) in AFTER:
+            for spelling in ('dollar', 'backquote'):
+                for ctx in ('unquoted', 'dq'):
+                    for placement in ('whole', 'middle'):
+                        for text in ('x', '$1', 'p q'):
+                            if ctx == 'unquoted' and ' ' in text:
+                                continue
+                            k += 1
+                            key = 'n%d' % k
+                            sub = ('$(vh-emit %s)' if spelling == 'dollar' else '`vh-emit %s`') % key
+                            head, tail = ('', '') if placement == 'whole' else ('h', 't')
+                            word = head + sub + tail
+                            if ctx == 'dq':
+                                word = '"%s"' % word
+                            line = 'vh-argv ' + btxt + word + atxt
+                            others = (1 if 'vh-emit o' in btxt else 0) + (1 if 'vh-emit o' in atxt else 0)
+                            files = {key: (text + '\n').encode()}
+                            if others:
+                                files['o'] = b'oo\n'
+                            cases.append({'line': line, 'files': files, 'alts': [bargs + [head + text + tail] + aargs], 'emits': 1 + others, 'text': text,
+                                          'spelling': spelling, 'placement': placement, 'ctx': ctx, 'stdin': None, 'neighbours': '%s/%s' % (bn, an)})
+    return cases
+
+
 def special_cases():
     """(name, line, files, checker description)"""
     S = []
@@ -89,6 +125,8 @@ def special_cases():
     S.append(('two-words-mixed', 'vh-argv "$(vh-emit a)" "`vh-emit b`"', {'a': b'$1\n', 'b': b'two\n'}, [['$1', 'two']], 2))
     S.append(('pipeline-inside', 'vh-argv "$(vh-emit a | cat)"', {'a': b'p q\n'}, [['p q']], 1))
     S.append(('builtin-inside', 'alias q=r ; vh-argv "$(alias)"', {}, [["alias q='r'"]], 0))
+    S.append(('function-inside', 'function fn1() {\n vh-emit a\n}\nvh-argv "$(fn1)"', {'a': b'f o\n'}, [['f o']], 1))
+    S.append(('function-inside-backquote', 'function fn1() {\n vh-emit a\n}\nvh-argv "h`fn1`t"', {'a': b'$1\n'}, [['h$1t']], 1))
     S.append(('failing-inside', 'vh-argv "$(vh-emit a 3)"', {'a': b'out\n'}, [['out']], 1))
     S.append(('notfound-inside', 'vh-argv "h$(vh-nosuchcmd)t"', {}, [['ht']], 0))
     S.append(('invalid-inside', 'vh-argv "h$(vh-emit a >)t"', {'a': b'zz\n'}, [['ht']], 0))
@@ -107,7 +145,13 @@ def run_case(c):
                 f.write(data)
         w = os.path.join(d, 'w')
         os.makedirs(w)
-        r = common.run_cicada(['-c', c['line']], d, cwd=w, env={'A': 'VALA', 'VH_READ_STDIN': '1'}, stdin=b'', timeout=15)
+        if '\n' in c['line']:      # several lines (function definitions): run as a script file
+            with open(os.path.join(d, 's.sh'), 'w') as f:
+                f.write(c['line'] + '\n')
+            args = [os.path.join(d, 's.sh')]
+        else:
+            args = ['-c', c['line']]
+        r = common.run_cicada(args, d, cwd=w, env={'A': 'VALA', 'VH_READ_STDIN': '1'}, stdin=b'', timeout=15)
         argv = [x['argv'] for x in r.records if x.get('k') == 'argv' and x.get('name') == 'vh-argv']
         stdin = [x.get('stdin') for x in r.records if x.get('k') == 'argv' and x.get('name') == 'vh-argv']
         argv2 = [x['argv'] for x in r.records if x.get('k') == 'argv' and x.get('name') == 'vh-argv2']
@@ -136,6 +180,8 @@ def run(rep, tier):
         'the environment exports A=VALA so that an output `$A` that were re-expanded would show',
     ]
     cases = build_cases(tier)
+    n_main = len(cases)
+    cases += neighbour_cases()
     results = common.pmap(run_case, cases, chunk=8)
     rep.states = len(set(repr((o['argv'], o['emits'])) for o in results))
     for c, o in zip(cases, results):
@@ -163,7 +209,9 @@ def run(rep, tier):
             rep.traces_validated += 1
         else:
             rep.outcome('deviation:' + dev)
-            if c['spelling'] == 'backquote' and c['ctx'] == 'unquoted' and c['placement'] == 'start' and dev == 'argv':
+            if c.get('neighbours'):
+                sig = '%s:%s:%s:%s:next-to-other-words:%s' % (dev, c['spelling'], c['ctx'], c['placement'], c['neighbours'])
+            elif c['spelling'] == 'backquote' and c['ctx'] == 'unquoted' and c['placement'] == 'start' and dev == 'argv':
                 # one cause whatever the output is: the tokenizer ends a word at the closing backquote
                 sig = 'argv:backquote:unquoted:start-of-word-followed-by-text'
             else:
@@ -196,6 +244,7 @@ def run(rep, tier):
             rep.violation('%s:%s' % (dev, name), {'line': line, 'files': {k: v.decode() for k, v in files.items()}}, {'argv': alts, 'inner_runs': emits},
                           {k: o[k] for k in ('argv', 'argv2', 'emits', 'err')}, repro='cicada -c %s' % common.shquote(line))
     rep.bounds.append({'layer': 'real binary -c', 'cases': len(cases) + len(sp), 'complete': True})
-    rep.sample({'line': cases[len(cases) // 2]['line'], 'output_of_inner_command': cases[len(cases) // 2]['text']})
+    rep.sample({'line': cases[n_main // 2]['line'], 'output_of_inner_command': cases[n_main // 2]['text']})
+    rep.bounds.append({'layer': 'substituted word next to other words (8 kinds before x 6 after x spelling x quoting x placement x 3 outputs)', 'cases': len(cases) - n_main, 'complete': True})
     if rep.traces_validated < 200:
         rep.machinery.append('vacuity guard: too few passing cases')
